@@ -520,8 +520,19 @@ def numeric_fronts(run, m, F, E):
                 continue
             seen.add(dc)
             wr, wu = want.get(dc, (None, None))
-            if rv != wr:
+            if uv is None and isinstance(upper, IntV):
+                # a flag computed from a comparison rather than chosen per branch: decided by the facts of the path
+                c = I.cond_of(s2, upper)
+                if c is not None:
+                    can = [t for t in (True, False) if I.assume(s2.clone(), c, t)]
+                    if len(can) == 1:
+                        uv = 1 if can[0] else 0
+            if rv is None:
+                und.append('radix handed to the digit generator is not a constant on the path of digit class %d' % dc)
+            elif rv != wr:
                 probs.append('digit class %d is rendered in radix %s, expected %s' % (dc, rv, wr))
+            elif wu is not None and uv is None:
+                und.append('letter case handed to the digit generator not decided on the path of digit class %d' % dc)
             elif wu is not None and uv != wu:
                 probs.append('digit class %d is rendered with upper_case=%s, expected %s' % (dc, uv, bool(wu)))
             ntv = ly[0][3]
